@@ -894,6 +894,14 @@ def c11(W, replay=None):
         ms = sample(W, [m for m in ms if any(s.get("ans") == "badToken" for s in m["steps"])], 1000 if W.tier == "thorough" else 80)
         scen += [conv(m, "c11/race/%d" % i, 1, store=("memory", "redis")[i % 2], probes=finish_all(m) + [PROBE_APP]) for i, m in enumerate(ms)]
         scen += replica_family(W)
+        # every single fault position on the refresh path (store calls, provider, key lookup; Redis: single commands)
+        ms = export(W, "c11-faults", Prepared='"expired"', Target=1, MaxApps=1, MaxFaults=2 if W.tier == "thorough" else 1, Checks="{1,2,3,4}", MaxSid=3, MaxTok=4)
+        for stname in ("memory", "redis"):
+            for i, m in enumerate(ms):
+                sc = conv(m, "c11/faults/%s/%d" % (stname, i), 1, store=stname, probes=finish_all(m) + [PROBE_APP, PROBE_APP], tags=["faults"])
+                scen.append(sc)
+                if stname == "redis":
+                    scen += redis_cmd_variants(sc, 6 if W.tier == "thorough" else 3)
         if W.tier == "thorough":
             scen += random_histories(W, 500, long=True)
     return sys_pipeline("C11", W, scen, None, ASSUME_SYS + ["histories are sequential (the property quantifies over histories, not schedules)"], replay=replay)
